@@ -386,6 +386,82 @@ impl Mdns {
     }
 }
 
+/// Verification hooks (cfg(feature = "verif") only, adds code only): a real [`Mdns`] object that
+/// is handed datagrams directly instead of reading them from the multicast socket.
+#[cfg(feature = "verif")]
+pub mod verif {
+    use super::*;
+    use crate::{addresses::PublicAddresses, PeerId};
+    use std::collections::HashMap;
+
+    /// What one datagram led to.
+    pub enum VerifMdnsOutcome {
+        /// `parse_packet` refused the datagram.
+        ParseError,
+        /// A response: the addresses that would be forwarded in `MdnsEvent::Discovered`
+        /// (those returned by `on_inbound_response` that were not known before).
+        Discovered(Vec<Multiaddr>),
+        /// A query: the reply `on_inbound_request` built.
+        Reply(Option<Vec<u8>>),
+    }
+
+    /// [`Mdns`] with the given user name and listen addresses. Must be created inside a tokio
+    /// runtime (the query interval timer).
+    pub struct VerifMdns {
+        inner: Mdns,
+    }
+
+    impl VerifMdns {
+        pub fn new(username: &str, listen_addresses: Vec<Multiaddr>) -> Self {
+            let (cmd_tx, _cmd_rx) = channel(64);
+            let local = PeerId::random();
+            let handle = TransportManagerHandle::new(
+                local,
+                Arc::new(parking_lot::RwLock::new(HashMap::new())),
+                cmd_tx,
+                HashSet::new(),
+                Default::default(),
+                PublicAddresses::new(local),
+            );
+            let (config, _events) = Config::new(Duration::from_secs(3600));
+            let mut inner = Mdns::new(handle, config, listen_addresses);
+            inner.username = username.to_string();
+            Self { inner }
+        }
+
+        /// Size of the receive buffer (a longer datagram is cut by `recv_from`).
+        pub fn receive_buffer_len(&self) -> usize {
+            self.inner.receive_buffer.len()
+        }
+
+        /// The datagram is placed into the receive buffer (cut to its size, as `recv_from` does)
+        /// and handled like in the `recv_from` arm of [`Mdns::start`]: `parse_packet`, then
+        /// `on_inbound_response` + the `discovered` filter, or `on_inbound_request`.
+        pub fn on_datagram(&mut self, datagram: &[u8]) -> VerifMdnsOutcome {
+            let nread = std::cmp::min(datagram.len(), self.inner.receive_buffer.len());
+            self.inner.receive_buffer[..nread].copy_from_slice(&datagram[..nread]);
+
+            match parse_packet(&self.inner.receive_buffer[..nread]) {
+                Ok(packet) => match packet.has_flags(PacketFlag::RESPONSE) {
+                    true => {
+                        let to_forward = self
+                            .inner
+                            .on_inbound_response(packet)
+                            .into_iter()
+                            .filter_map(|address| {
+                                self.inner.discovered.insert(address.clone()).then_some(address)
+                            })
+                            .collect::<Vec<_>>();
+                        VerifMdnsOutcome::Discovered(to_forward)
+                    }
+                    false => VerifMdnsOutcome::Reply(self.inner.on_inbound_request(packet)),
+                },
+                Err(_) => VerifMdnsOutcome::ParseError,
+            }
+        }
+    }
+}
+
 #[cfg(test)]
 mod tests {
     use super::*;
